@@ -245,6 +245,36 @@ def classify(case, r, its):
 LATTICE = [0.01, 0.5, 1 - 2.0 ** -40, 1.0, 1 + 2.0 ** -40, 2.0]
 
 
+def gen_vnorm_case(rng, tier):
+    """'arbitrary v': |v| from 1e-14 to 1e6, in particular ON the lattice {0.01, 0.5, 1-+2^-40, 1, 2} x norm_tolerance
+    and x exp_tolerance (a back-propagated gradient or a strongly decayed state under a loose tolerance), and the
+    exactly-zero vector. The property's error is relative to |v|, so nothing may depend on |v| vs a tolerance."""
+    c = gen_case(rng, "quick")
+    c["md"] = rng.choice([5, 10, 30, 100])
+    c["tol"] = 10 ** rng.uniform(-12, -4)
+    which = rng.choice(["equal", "equal", "norm>>exp", "norm<<exp"])
+    c["norm_tol"] = c["tol"] if which == "equal" else (min(c["tol"] * 10 ** rng.uniform(1, 5), 1e-2) if which == "norm>>exp"
+                                                         else c["tol"] * 10 ** rng.uniform(-5, -1))
+    kind = rng.choice(["lattice-norm", "lattice-norm", "lattice-exp", "log", "zero"])
+    nv = float(np.linalg.norm(c["v"]))
+    if kind == "zero" or nv == 0.0:
+        c["v"] = np.zeros(c["n"], dtype=complex)
+        kind = "zero"
+        target = 0.0
+    else:
+        target = (rng.choice(LATTICE) * (c["norm_tol"] if kind == "lattice-norm" else c["tol"])) if kind != "log" \
+            else 10 ** rng.uniform(-14, 6)
+        c["v"] = c["v"] * (target / nv)
+        if kind != "log" and rng.random() < 0.5:          # |v| EXACTLY the lattice point: a basis vector times it
+            c["v"] = np.zeros(c["n"], dtype=complex)
+            c["v"][rng.randrange(c["n"])] = target
+    c["sub"] = "vnorm-" + kind + "/" + c["sub"]
+    c["order"] = which
+    c["positional"] = rng.random() < 0.5
+    c["vnorm_over_normtol"] = target / c["norm_tol"]
+    return c
+
+
 def gen_large_case(rng, tier):
     """LARGE |A| (10 .. 1e4) with a near-invariant subspace: -i*(a*1 + K + eps*C), K block diagonal, C couples the
     block holding the start vector to the rest. eps is swept over [0.01*tol, 100*tol*|A|] on a lattice that hits
@@ -503,6 +533,8 @@ def compare_tape(case, kind, r, rec, m):
     if mex:
         arg = mex[-1][1]
         k = arg.shape[0]
+        if not np.isfinite(arg).all():
+            return None                        # NaN payloads are not compared (zero start vector)
         real = {(i, j): complex(arg[i, j]) for i in range(k) for j in range(k) if arg[i, j] != 0}
         mod = {ij: z for ij, z in m["T"].items() if ij[0] < k and ij[1] < k}
         if real != mod:
@@ -519,6 +551,8 @@ def oracle(case, kind, r, rec):
     nops = sum(1 for e in rec.events if e[0] == "op")
     if r.happy_breakdown and not r.converged:
         return "happy_breakdown without converged"
+    if r.iteration_count < 1 and case["md"] >= 1 and float(np.linalg.norm(case["v"])) > 0:
+        return f"iteration_count={r.iteration_count}: no iteration was run (|v|={float(np.linalg.norm(case['v'])):.3e})"
     if r.iteration_count > case["md"]:
         return f"iteration_count {r.iteration_count} > max_krylov_dim {case['md']}"
     if nops != r.iteration_count:
@@ -603,7 +637,7 @@ def check(rep: Report, tier: str, seed: int) -> None:
         except Exception as e:
             rep.fail(f"real krylov_exp_impl raised {type(e).__name__}: {e}", _ser(case))
             return
-        msg = oracle(case, kind, r, rec) if (case.get("in_class", True) or case["sub"].startswith("large/")) else None
+        msg = oracle(case, kind, r, rec) if (case.get("in_class", True) or case["sub"].startswith(("large/", "vnorm-"))) else None
         if msg is None and case.get("in_class", True):
             msg = oracle_public(case, r)
         worst = max(worst, case.get("_err_over_thr", 0.0))
@@ -619,6 +653,8 @@ def check(rep: Report, tier: str, seed: int) -> None:
             rep.hist("oracle_failures", klass or "unclassified")
         for t in its:   # contract of the matrix_exp oracle
             arg, out = t["mexp"]
+            if not np.isfinite(arg).all():
+                continue                       # zero start vector: 0/0 = NaN everywhere (see notes)
             ref = scipy.linalg.expm(arg)
             sc = max(1.0, float(np.abs(ref).max()))
             if not np.abs(out[:, 0] - ref[:, 0]).max() <= 1e-10 * sc:
@@ -680,6 +716,13 @@ def check(rep: Report, tier: str, seed: int) -> None:
 
     for i in range(70 if tier == "quick" else 800):
         add_pub(gen_pub_case(rng, tier))
+    for i in range(80 if tier == "quick" else 1000):      # |v| from 0 and 1e-14 to 1e6, on the tolerance lattices
+        c = gen_vnorm_case(rng, tier)
+        rep.hist("vnorm_over_normtol", "0" if c["vnorm_over_normtol"] == 0 else "%.0e" % c["vnorm_over_normtol"])
+        if i % 2 == 0:
+            add(c)
+        else:
+            add_pub(c)
     for i in range(90 if tier == "quick" else 1200):      # large |A|, near-invariant subspaces, boundary lattice
         c = gen_large_case(rng, tier)
         rep.hist("large_eps_over_normtol", "%.0e" % c["eps_over_normtol"])
